@@ -59,7 +59,10 @@ func Run(k *report.Check) {
 	k.Assumptions = []string{"watermarks of one upstream do not decrease (C11); timestamps at or after the epoch", "the database itself is C07/C08's subject: a large memtable keeps it out of the picture here"}
 	k.Budget(300, 1200)
 	p := params{depth: k.Pick(5, 7)}
-	k.Explore(fmt.Sprintf("timers/d=%d", p.depth), mc.Config{}, p, body)
+	// worker processes: every scan of the database that ends early leaves parked iterator coroutines
+	// behind in the code under test (mergesort.Merge never stops the iterators it pulls), a few
+	// kilobytes per execution; workers are replaced when their live heap passes the cap
+	k.ExploreProc(fmt.Sprintf("timers/d=%d", p.depth), mc.Config{WorkerHeapCap: 640 << 20, SharedSeen: uint64(k.Pick(1<<24, 1<<26))}, p, body)
 }
 
 // pickKeySpace finds a key-group count for which a and c share a group, b has another and no
